@@ -1230,44 +1230,45 @@ VH_TARGET(views, 3,
       else
         for (auto *v : applied)
           exp.push_back(expect_of(in, i, v));
-      for (auto *s : by_inst[i])
-        s->used = false;
-      bool ok = true;
-      std::string first_why;
+      // nothing is required of a Drop view (drop-only streams are judged below); every other
+      // expectation needs its own stream: a perfect matching, found by backtracking (a view with
+      // custom boundaries and one without can otherwise steal each other's stream)
+      std::vector<const Expect *> need;
       for (auto &e : exp)
+        if (e.kind != kDropK)
+          need.push_back(&e);
+      bool ok = need.size() == by_inst[i].size();
+      std::string first_why;
+      if (!ok)
+        first_why = "expected " + std::to_string(need.size()) + " stream(s) with values, the reader got " +
+                    std::to_string(by_inst[i].size());
+      else
       {
-        if (e.kind == kDropK)
-          continue;  // nothing is required of a Drop view (drop-only streams are judged below)
-        bool found = false;
-        std::string w;
-        for (auto *s : by_inst[i])
-        {
-          if (s->used)
-            continue;
-          w = fits(*s, e, in, mid);
-          if (w.empty())
+        std::vector<bool> taken(by_inst[i].size(), false);
+        std::function<bool(size_t)> assign = [&](size_t k) {
+          if (k == need.size())
+            return true;
+          for (size_t x = 0; x < by_inst[i].size(); ++x)
           {
-            s->used = true;
-            found   = true;
-            break;
+            if (taken[x])
+              continue;
+            std::string w = fits(*by_inst[i][x], *need[k], in, mid);
+            if (!w.empty())
+            {
+              if (first_why.empty() || by_inst[i][x]->name == need[k]->name)
+                first_why = "no stream named '" + need[k]->name + "' of kind " + kKindName[need[k]->kind] + " with " +
+                            std::to_string(need[k]->series.size()) + " attribute set(s) (closest candidate: " + w + ")";
+              continue;
+            }
+            taken[x] = true;
+            if (assign(k + 1))
+              return true;
+            taken[x] = false;
           }
-        }
-        if (!found)
-        {
-          ok = false;
-          if (first_why.empty())
-            first_why = "no stream named '" + e.name + "' of kind " + kKindName[e.kind] + " with " +
-                        std::to_string(e.series.size()) + " attribute set(s)" +
-                        (w.empty() ? std::string() : " (closest candidate: " + w + ")");
-        }
+          return false;
+        };
+        ok = assign(0);
       }
-      for (auto *s : by_inst[i])
-        if (!s->used)
-        {
-          ok = false;
-          if (first_why.empty())
-            first_why = "unexpected stream " + show_stream(*s);
-        }
       if (ok)
         explained = true;
       else if (why.empty())
@@ -1282,8 +1283,10 @@ VH_TARGET(views, 3,
         vs += "\n    #" + std::to_string(v) + (rel[i][v] == kYes ? " MATCHES " : rel[i][v] == kNo ? " no match " : " either ") +
               show_view(views[v]);
       c.fail("the streams exported for " + show_inst(in, meters) + " are not what its matching views describe: " +
-             why + "\n  streams of this instrument:" + (got.empty() ? " none" : got) + "\n  views:" +
-             (vs.empty() ? " none" : vs));
+             why + "\n  " + std::to_string(must.size()) + " view(s) match, " + std::to_string(may.size()) +
+             " may match (either-region); expected one stream per applied view, or one default stream when none "
+             "applies\n  streams of this instrument:" +
+             (got.empty() ? " none" : got) + "\n  views:" + (vs.empty() ? " none" : vs));
     }
   }
   // Drop: either nothing at all or a stream that carries only drop points and the identity the
